@@ -250,8 +250,27 @@ func earlyExit(c Case, st Step, o obs.Outcome) bool {
 	return !o.Valid
 }
 
+// sharedEmpty is the library's package-level "nothing to report" result, which the validators return (and merge into
+// their own results) instead of allocating one: what a nil validator returns. It is shared by every validation of the
+// process, so it must stay as it is: no message, match count 1.
+var sharedEmpty = (*validate.SchemaValidator)(nil).Validate(nil)
+
+func sharedEmptyState() string {
+	if sharedEmpty == nil {
+		return ""
+	}
+	if len(sharedEmpty.Errors) == 0 && len(sharedEmpty.Warnings) == 0 && sharedEmpty.MatchCount == 1 {
+		return ""
+	}
+	return fmt.Sprintf("errors %q warnings %q match count %d", obs.Set(sharedEmpty.Errors), obs.Set(sharedEmpty.Warnings), sharedEmpty.MatchCount)
+}
+
 func check(c Case) (out ev.Outcome) {
 	defer hook.SetRedeemHook(nil)
+	if sharedEmpty != nil {
+		// each case starts from the pristine shared object, whatever an earlier case did to it
+		sharedEmpty.Errors, sharedEmpty.Warnings, sharedEmpty.MatchCount = nil, nil, 1
+	}
 	// 1. reference outcomes: recycling off, from fresh pools
 	hook.ResetPools()
 	hook.SetRedeemHook(func(any) bool { return true }) // swallow: nothing is ever reused
@@ -313,6 +332,9 @@ func check(c Case) (out ev.Outcome) {
 		}
 		if !got.Same(want) {
 			return ev.Failf("step %d (%s): with recycling the call returns %s; alone with recycling off it returns %s", i, key(st), got.Outcome, want)
+		}
+		if state := sharedEmptyState(); state != "" {
+			return ev.Failf("step %d (%s) left something behind in the result object that all validations share (returned by a nil validator, merged into later results): %s", i, key(st), state)
 		}
 		if len(got.errs) > 0 {
 			keep = append(keep, kept{i, got.errs, obs.Set(got.errs)})
